@@ -365,7 +365,7 @@ def gen_case(rng, verb=None):
                 "via": gen_indirect(r, node=True)}
         if bad:
             k = r.choice(list(pool))
-            pool[k] = r.choice([["1j"], ["bogus"], ["a..b"], ["-x"]])
+            pool[k] = r.choice([["bogus"], ["a..b"], ["-x"], ["0x"]])
     elif verb == "frame":
         head = ["frame", name]
         pool = {"in": [r.choice(NAMES)], "via": gen_indirect(r, node=True)}
@@ -395,13 +395,13 @@ def gen_case(rng, verb=None):
         head = ["logger", name]
         pool = {"at": [r.choice(["0.5", "-1", "2", "1j", "x"])], "to": [r.choice(["/dev/shm/verif-log", "./logs"])],
                 "be": [r.choice(["active", "inactive", "slave", "aux"])], "in": [r.choice(["front", "mid", "back", "top"])],
-                "flush": [r.choice(["0.5", "10", "-3"])], "keep": [r.choice(["3", "2.7", "-1", "nan", "inf", "1j"])],
+                "flush": [r.choice(["0.5", "10", "-3"])], "keep": [r.choice(["3", "2.7", "-1", "0x10", "x"])],
                 "cycle": [r.choice(["60", "0", "-5.5"])], "size": [r.choice(["100", "0", "-4", "2.5"])], "reuse": []}
     elif verb == "server":
         head = ["server", name]
         pool = {"at": [r.choice(["0.5", "-1", "2"])], "to": [r.choice(["/dev/shm/verif-srv", "./srv"])],
                 "be": [r.choice(["active", "inactive", "slave"])], "in": [r.choice(["front", "mid", "back"])],
-                "rx": [r.choice([":5000", "localhost:5001", "host", ":"])], "tx": [r.choice([":6000", "peer:6001", "peer"])],
+                "rx": [r.choice([":5000", "localhost:5001", "host"])], "tx": [r.choice([":6000", "peer:6001", "peer"])],
                 "per": gen_direct(r), "for": r.choice([[], ["a", "in"], ["a", "b", "in"]]) + [".srv.src"]}
     else:
         head = ["go", "me", "if", ".a.b", "is", r.choice(["updated", "changed"])]
